@@ -132,7 +132,7 @@ Proof.
     rewrite ex_lt_none.
     + cbn [rbind]. eexists. reflexivity.
     + intros d Hd0. apply (all_lt_false F _ f Hf). apply (all_lt_false P _ p Hp). apply (all_lt_false T _ t Ht).
-      destruct HC as [_ [_ [_ [_ Hcell]]]]. rewrite Hcell by assumption. exact Hobs.
+      destruct HC as [_ [_ [_ [_ Hcell]]]]. rewrite Hcell by (assumption || lia). exact Hobs.
   - (* copy *)
     destruct Hsame as [mc Hmc]. rewrite Hmc. cbn [rbind]. eexists. reflexivity.
   - (* torch *)
